@@ -200,7 +200,9 @@ def random_stub(draw, src):
   tree = pyast.parse(src)
   lines = ["from typing import Any, Callable, Never, Optional, TypeVar, Union",
            "_T0 = TypeVar('_T0')"]
-  t = lambda: draw(st.sampled_from(STUB_TYPES))
+  bias_any = draw(st.integers(0, 9)) < 3    # stubs dominated by Any / Never
+  t = lambda: (draw(st.sampled_from(["Any", "Never", "Any", "int"]))
+               if bias_any else draw(st.sampled_from(STUB_TYPES)))
 
   def walk(body, indent):
     wrote = False
@@ -298,6 +300,23 @@ def run_shard(ctx):
 
 
 FIXED = [
+    # the source already carries bare Any / Never annotations
+    ("from typing import Any, Never\ndef load(path) -> Any:\n  return path\n"
+     "def stop() -> Never:\n  raise SystemExit\nx: Any = load(1)\n"
+     "class K:\n  y: Any = 0\n  def m(self, a: Any) -> Any:\n    return a\n",
+     "from typing import Any, Never\ndef load(path: str) -> Any: ...\n"
+     "def stop() -> Never: ...\nx: Any\nclass K:\n  y: Any\n"
+     "  def m(self, a: int) -> Any: ...\n"),
+    # a class whose stub members are all Any / Never declarations
+    ("class Cfg:\n  host = get()\n  port = get()\n\nclass Other:\n  a = 1\n",
+     "from typing import Any, Never\nclass Cfg:\n  host: Any\n  port: Never\n\n"
+     "class Other:\n  a: Any\n"),
+    # static / class methods and properties returning Any / Never
+    ("class S:\n  @staticmethod\n  def sm(x):\n    return x\n  @classmethod\n"
+     "  def cm(cls):\n    return cls\n  @property\n  def p(self):\n    return 1\n",
+     "from typing import Any, Never\nclass S:\n  @staticmethod\n"
+     "  def sm(x: int) -> Any: ...\n  @classmethod\n  def cm(cls) -> Never: ...\n"
+     "  @property\n  def p(self) -> Any: ...\n"),
     ("import os\nx = os.foo()\ndef f(a, b):\n  return a\nclass A:\n  y = os.bar\n"
      "  def m(self, q): return q\n",
      "from typing import Any, Never\nx: Any\ndef f(a: Any, b: int) -> Any: ...\n"
